@@ -48,6 +48,41 @@ theorem c14_starstar_bfs (cs : Classes) (h : Heap) (hw : heapWF cs h = true)
   simp only [List.take_zero, List.drop_zero, List.nil_append]
   cases cur <;> rfl
 
+/-- **`**` is breadth-first for every registry.**  Whatever `_extend_children` enumerates — any
+    `keys` / `get` / `iterate` handler tables, with any user-registered container types (`expand` is
+    an arbitrary function) — and whatever the object graph (any sharing, any cycles, any number `n`
+    of objects), the index loop over the growing list with its `id()`-visited set computes the queue
+    breadth-first traversal over `expand`: the value itself, then its descendants level by level, one
+    entry per reference. -/
+theorem c14_starstar_bfs_any_registry (n : Nat) (expand : Val → List Val) (cur : Val) :
+    (starstarItemsG n expand cur).1 = descendG n expand cur := by
+  unfold starstarItemsG descendG
+  simp only
+  rw [ssLoopG_eq_bfsG n expand expand (fun _ => rfl)]
+  simp only [List.take_zero, List.drop_zero, List.nil_append]
+  cases cur <;> rfl
+
+/-- … each container is expanded at most once and the loop terminates after at most `n + 1`
+    expansions, for every registry. -/
+theorem c14_expand_once_any_registry (n : Nat) (expand : Val → List Val) (cur : Val) :
+    (starstarItemsG n expand cur).2.Nodup ∧ (starstarItemsG n expand cur).2.length ≤ n + 1 := by
+  unfold starstarItemsG
+  cases cur <;> first
+    | exact ssLoopG_bound n expand _ [_] (by simp)
+    | exact ⟨(ssLoopG_bound n expand _ [] (by simp)).1,
+        Nat.le_succ_of_le (by simpa using (ssLoopG_bound n expand _ [] (by simp)).2)⟩
+
+/-- the model's `_extend_children` and `**` are the instance "default registry + the user
+    registrations of the class table" of the registry-parametric ones -/
+theorem c14_default_registry_instance (cs : Classes) (h : Heap) (cur : Val) :
+    extendChildren cs h cur = extendChildrenH (defaultHandlers cs h) cur ∧
+    starstarItems cs h cur = starstarItemsG h.length (extendChildrenH (defaultHandlers cs h)) cur := by
+  have he : extendChildren cs h = extendChildrenH (defaultHandlers cs h) :=
+    funext (extendChildren_eq_H cs h)
+  refine ⟨extendChildren_eq_H cs h cur, ?_⟩
+  unfold starstarItems starstarItemsG ssLoop
+  rw [he]
+
 /-- **Each shared or cyclic container is expanded only once** — the root included — for every
     heap: the expanded addresses are pairwise distinct, and the result consists of the root, its
     children, and the children of each container expanded by the loop, in expansion order. -/
@@ -223,6 +258,205 @@ theorem c14_model_checks (cs : Classes) (h : Heap) (hw : heapWF cs h = true) (hc
     | ok p => obtain ⟨h', e⟩ := p; simp
     | error e => cases e <;> simp
 
+/-! ### steps with effects after a wildcard; identity of the result's lists -/
+
+/-- **Steps after a wildcard are applied to each entry independently — once per matched position, on
+    the state the previous position left.**  On every well-formed heap (any sharing, any cycles), for
+    every path of accesses, wildcards and method calls with an effect (`pop`, `append`, `__next__`),
+    the model's `_t_eval` — `cur = []`, then the `for child in nxt: try … except PathAccessError` loop —
+    computes the reference: the entries are `children` / the breadth-first `descend` of the heap as it
+    is when the wildcard is reached, the remainder is evaluated for every position in order, a position
+    failing with PathAccessError is dropped, any other exception ends the evaluation with the state
+    reached so far; and the heap stays well-formed. -/
+theorem c14_stateful_refines (cs : Classes) (hc : classesWF cs = true) (steps : List Step) (cur : Val)
+    (s : St) (hw : heapWF cs s.heap = true) :
+    evalS cs steps cur s = refEvalS cs steps cur s ∧ heapWF cs (evalS cs steps cur s).1.heap = true :=
+  evalS_eq_refEvalS cs hc steps cur s hw
+
+/-- **Every further wildcard adds one level of list nesting — a list of its own**: every evaluation
+    of a wildcard step creates a new list; in the result of any path on any heap no two positions are
+    the same list object, and every list of the result was created by this evaluation (its identity
+    is not below the counter the evaluation started with). -/
+theorem c14_fresh_lists (cs : Classes) (steps : List Step) (cur : Val) (s : St) (r : LRes)
+    (hr : (evalS cs steps cur s).2 = .ok r) :
+    r.labels.Nodup ∧ ∀ l ∈ r.labels, s.next ≤ l ∧ l < (evalS cs steps cur s).1.next :=
+  (evalS_fresh cs steps cur s).2 r hr
+
+/-- **The evaluation with state extends the pure one**: on a path without calls the target and the
+    call log are untouched and the value is `evalSteps`' (all theorems above about `evalSteps` speak
+    about `evalS`). -/
+theorem c14_pure_conservative (cs : Classes) (steps : List (String × Val)) (cur : Val) (s : St) :
+    (evalS cs (steps.map Step.ofPair) cur s).1.heap = s.heap ∧
+    (evalS cs (steps.map Step.ofPair) cur s).1.calls = s.calls ∧
+    eraseE (evalS cs (steps.map Step.ofPair) cur s).2 = evalSteps cs s.heap steps cur :=
+  evalS_pure cs steps cur s
+
+/-- **One object at `n` positions is `n` evaluations** (`glom([q]*n, T.__star__().append(v))`):
+    whenever the entries of a `*` step are `n` references to one list `q`, `append(v)` is called `n`
+    times — `q` ends with `n` more items, the result has `n` entries, `n` calls are logged. -/
+theorem c14_same_object_n_appends (cs : Classes) (s : St) (cur : Val) (q : Nat) (c : String)
+    (xs : List Val) (v : Val) (n : Nat) (hq : s.heap[q]? = some (.list c xs))
+    (hent : starItems cs s.heap cur = List.replicate n (.ref q)) :
+    evalS cs [.star, .call "append" [v]] cur s =
+      ({ heap := s.heap.set q (.list c (xs ++ List.replicate n v)), next := s.next + 1,
+         calls := s.calls ++ logN c q "append" n },
+       .ok (.list s.next (List.replicate n (.val .none)))) := by
+  show wildS (evalS cs [.call "append" [v]]) (starItems cs s.heap cur) s = _
+  rw [hent]
+  unfold wildS
+  rw [collectS_append_replicate cs q c v n { s with next := s.next + 1 } xs hq]
+
+/-- … and `pop()`: the `k`-th position gets the `k`-th item from the end, `q` loses `n` items
+    (`glom([q, q], T.__star__().pop())` on `q = [1, 2, 3]` is `[3, 2]` and leaves `q = [1]`). -/
+theorem c14_same_object_n_pops (cs : Classes) (s : St) (cur : Val) (q : Nat) (c : String)
+    (ys rs : List Val) (hq : s.heap[q]? = some (.list c (ys ++ rs.reverse)))
+    (hent : starItems cs s.heap cur = List.replicate rs.length (.ref q)) :
+    evalS cs [.star, .call "pop" []] cur s =
+      ({ heap := s.heap.set q (.list c ys), next := s.next + 1,
+         calls := s.calls ++ logN c q "pop" rs.length },
+       .ok (.list s.next (rs.map LRes.val))) := by
+  show wildS (evalS cs [.call "pop" []]) (starItems cs s.heap cur) s = _
+  rw [hent]
+  unfold wildS
+  rw [collectS_pop_replicate cs q c rs { s with next := s.next + 1 } ys hq]
+
+/-- **Checker theorem for reads** (result with the identity of its lists, target afterwards, calls
+    made) — the form in which the property is evaluated on the implementation's observation. -/
+theorem c14_model_checks_read (cs : Classes) (h : Heap) (hw : heapWF cs h = true)
+    (hc : classesWF cs = true) (steps : List Step) (target : Val) :
+    checkC14S cs h steps target (modelReadS cs h steps target) = true := by
+  unfold checkC14S modelReadS obsOf
+  have hfresh := evalS_fresh cs steps target (initSt h)
+  rw [(evalS_eq_refEvalS cs hc steps target (initSt h) hw).1] at hfresh ⊢
+  generalize refEvalS cs steps target (initSt h) = p at hfresh ⊢
+  obtain ⟨s', r⟩ := p
+  cases r with
+  | ok r =>
+    have := (hfresh.2 r rfl).1
+    simp [Res.beq_refl, nodupB_of_nodup _ this]
+  | error e => cases e <;> simp
+
+/-! ### where a wildcard path can fail; Coalesce and defaults -/
+
+/-- **Entries for which the steps fail are dropped instead of raising — so a path fails only in
+    front of its first wildcard**: the evaluation succeeds iff the steps in front of the first
+    wildcard can be walked from the target (whatever follows the wildcard, whatever it matches). -/
+theorem c14_fails_only_before_first_wildcard (cs : Classes) (h : Heap) (hw : heapWF cs h = true)
+    (hc : classesWF cs = true) (steps : List (String × Val)) (hs : wfOps steps = true) (cur : Val) :
+    isOkE (evalSteps cs h steps cur) = reachable cs h cur steps := by
+  rw [(c14_tail_independent cs h hw hc steps hs cur).1]
+  exact refEval_ok_iff_reachable cs h steps cur
+
+/-- **Wildcards inside `Coalesce`**: `Coalesce(p₀, p₁, …, default=d)` yields the value of the first
+    path whose part in front of the first wildcard can be walked — an empty list included, a wildcard
+    that matches nothing is not a miss — and the default (else CoalesceError) iff there is none. -/
+theorem c14_coalesce (cs : Classes) (h : Heap) (hw : heapWF cs h = true) (hc : classesWF cs = true)
+    (target : Val) (d : Bool) (alts : List (List (String × Val))) (ha : ∀ a ∈ alts, wfOps a = true) :
+    coalesce cs h target d alts 0 = refCoalesce cs h target d alts := by
+  rw [coalesce_eq cs h hw hc target d alts 0 ha]
+  unfold refCoalesce
+  cases List.findIdx? (reachable cs h target) alts with
+  | none => rfl
+  | some j =>
+    simp only [Nat.zero_add]
+    cases refEval cs h (alts.getD j []) target <;> rfl
+
+/-- … `glom(target, path, default=d)` returns `d` iff the part in front of the first wildcard
+    cannot be walked; otherwise the value, `d` playing no part. -/
+theorem c14_default_iff_unreachable (cs : Classes) (h : Heap) (hw : heapWF cs h = true)
+    (hc : classesWF cs = true) (steps : List (String × Val)) (hs : wfOps steps = true) (target : Val) :
+    glomDefault cs h target true steps =
+      (if reachable cs h target steps then
+         (match refEval cs h steps target with
+          | .ok r => .ok 0 r
+          | .error _ => .dflt)
+       else .dflt) := by
+  have hr := c14_fails_only_before_first_wildcard cs h hw hc steps hs target
+  obtain ⟨he, hne⟩ := c14_tail_independent cs h hw hc steps hs target
+  unfold glomDefault
+  rw [he] at hr ⊢
+  cases hre : refEval cs h steps target with
+  | ok r => rw [hre] at hr; simp [isOkE] at hr; simp [← hr]
+  | error e =>
+    rw [hre] at hr
+    simp only [isOkE] at hr
+    have : isGlomErr e = true := by
+      cases e with
+      | pae x => rfl
+      | other c => exact absurd (he.trans hre) (hne c)
+    simp [← hr, this]
+
+/-! ### `__stars__`, flattening depth, nested `Path`s -/
+
+/-- `__stars__` is additive: the number of list levels of `Path(a, b)` is that of `a` plus that of `b` -/
+theorem c14_stars_append (a b : List (String × Val)) : stars (a ++ b) = stars a + stars b :=
+  stars_append a b
+
+/-- **wildcards inside `Path(...)`**, mixed with plain segments, T expressions and nested Paths: the
+    path's `__stars__` is the sum over its parts, for any number of parts and any nesting of Paths -/
+theorem c14_stars_path (ps : List PathPart) :
+    stars (PathPart.stepsList ps) = (ps.map (fun p => stars p.steps)).sum :=
+  stars_stepsList ps
+
+/-- **the flattening depth is right for any number of wildcards**: `k` applications of `sum(val, [])`
+    to the items of a `(k+1)`-level result give exactly its entries, in order … -/
+theorem c14_flatten_depth (k : Nat) (xs : List Res) (hx : xs.all (nested k) = true) :
+    ∃ ys, flattenN k xs = some ys ∧ ys.all (nested 0) = true ∧ ys.flatMap (leaves 0) = xs.flatMap (leaves k) :=
+  flattenN_nested k xs hx
+
+/-- … and one more application raises (`sum` meets an entry that is not a list) as soon as there is an
+    entry: `layers - 1` is the only depth that works for every target. -/
+theorem c14_flatten_too_deep (k : Nat) (xs : List Res) (hx : xs.all (nested k) = true)
+    (hne : xs.flatMap (leaves k) ≠ []) : flattenN (k + 1) xs = none :=
+  flattenN_too_deep k xs hx hne
+
+/-! ### the switch `PATH_STAR` -/
+
+/-- **switch off: `*` and `**` are plain segments.**  `Path.from_text` makes one `P` step per
+    dot-separated segment, whatever the segment; the path has no wildcard (`__stars__() = 0`). -/
+theorem c14_path_star_off_plain (text : String) :
+    stepsOfText false text =
+      (Glom.C01.splitDot text.toList).map (fun seg => ("P", Val.str (String.ofList seg))) ∧
+    (stepsOfText false text).all (fun s => s.1 == "P") = true ∧ stars (stepsOfText false text) = 0 := by
+  have h1 : stepsOfText false text =
+      (Glom.C01.splitDot text.toList).map (fun seg => ("P", Val.str (String.ofList seg))) := by
+    unfold stepsOfText partsOfTextMode
+    simp only [Bool.false_eq_true, if_false]
+    exact stepsOfParts_segs _
+  have h2 : (stepsOfText false text).all (fun s => s.1 == "P") = true := by
+    rw [h1]; simp [List.all_map]
+  exact ⟨h1, h2, stars_all_P _ h2⟩
+
+/-- … so with the switch off a text path yields a single value or fails with a PathAccessError —
+    never a list made by a wildcard —, on every heap: it is the plain access chain of C01 with the
+    keys `*` / `**` looked up like any other key. -/
+theorem c14_path_star_off_value (cs : Classes) (h : Heap) (hw : heapWF cs h = true)
+    (hc : classesWF cs = true) (text : String) (cur : Val) (r : Res)
+    (hr : evalSteps cs h (stepsOfText false text) cur = .ok r) : ∃ v, r = .val v := by
+  obtain ⟨_, h2, h3⟩ := c14_path_star_off_plain text
+  have := c14_nesting cs h hw hc _ (wfOps_all_P _ h2) cur r hr
+  rw [h3] at this
+  cases r with
+  | val v => exact ⟨v, rfl⟩
+  | list xs => simp [nested] at this
+
+/-- **switch on**: the segments `*` / `**` are the wildcard steps (the parts of `partsOfText`) -/
+theorem c14_path_star_on (text : String) :
+    stepsOfText true text = Glom.C01.stepsOfParts (Glom.C01.partsOfText text.toList) := rfl
+
+/-- **the switch matters for `*` / `**` segments only**: a text without such a segment denotes the
+    same path under both settings. -/
+theorem c14_path_star_irrelevant (text : String)
+    (hno : ∀ seg ∈ Glom.C01.splitDot text.toList, seg ≠ ['*'] ∧ seg ≠ ['*', '*']) :
+    stepsOfText true text = stepsOfText false text := by
+  unfold stepsOfText partsOfTextMode Glom.C01.partsOfText
+  simp only [if_true, Bool.false_eq_true, if_false]
+  congr 1
+  apply List.map_congr_left
+  intro seg hseg
+  obtain ⟨h1, h2⟩ := hno seg hseg
+  simp [h1, h2]
+
 /-! ### non-vacuity: concrete inputs meet every hypothesis -/
 
 /-- a cyclic heap with a shared child: `0: {'a': [..], 'b': [..]}` (both the same list 1),
@@ -231,7 +465,7 @@ private def exHeap : Heap :=
   [ .dict "dict" [(.str "a", .ref 1), (.str "b", .ref 1)],
     .list "list" [.ref 0, .int 7, .ref 2],
     .inst "Obj" [("k", .ref 1)] ]
-private def exCls : Classes := [("Obj", ⟨["Obj", "object"], true, false⟩)]
+private def exCls : Classes := [("Obj", ⟨["Obj", "object"], true, false, ""⟩)]
 
 example : heapWF exCls exHeap = true ∧ classesWF exCls = true := by decide
 example : wfOps [("X", .none), ("P", .str "k")] = true := by decide
@@ -245,20 +479,23 @@ example : starstarItems exCls exHeap (.ref 0) =
     ([.ref 0, .ref 1, .ref 1, .ref 0, .int 7, .ref 2, .ref 1], [0, 1, 2]) := by
   unfold starstarItems
   simp only [ex_e0]
-  repeat (rw [ssLoop]; simp [ex_e1, ex_e2, ex_len])
+  unfold ssLoop
+  repeat (rw [ssLoopG]; simp [ex_e1, ex_e2, ex_len])
 example : descend exCls exHeap (.ref 0) = [.ref 0, .ref 1, .ref 1, .ref 0, .int 7, .ref 2, .ref 1] := by
   rw [← c14_starstar_bfs exCls exHeap (by decide) (by decide)]
   unfold starstarItems
   simp only [ex_e0]
-  repeat (rw [ssLoop]; simp [ex_e1, ex_e2, ex_len])
+  unfold ssLoop
+  repeat (rw [ssLoopG]; simp [ex_e1, ex_e2, ex_len])
 -- the self-referential list of the repaired defect F8: `a = []; a.append(a); glom(a, '**')`
 example : (starstarItems [] [.list "list" [.ref 0]] (.ref 0)).1 = [.ref 0, .ref 0] := by
   have e : extendChildren [] [.list "list" [.ref 0]] (.ref 0) = [.ref 0] := by decide
   unfold starstarItems
   simp only [e]
-  repeat (rw [ssLoop]; simp)
+  unfold ssLoop
+  repeat (rw [ssLoopG]; simp)
 -- an instance of a list subclass that has a `__dict__` is walked by its items (repaired 6678f8c)
-example : starItems [("LSub", ⟨["LSub", "list", "object"], true, true⟩)]
+example : starItems [("LSub", ⟨["LSub", "list", "object"], true, true, ""⟩)]
     [.list "LSub" [.int 1, .int 2]] (.ref 0) = [.int 1, .int 2] := by decide
 -- steps after a wildcard: `*.k` keeps the entries that have a `k`; two wildcards nest twice
 private def okIs (o : Obs) (r : Res) : Bool := match o with | .ok r' => Res.beq r' r | _ => false
@@ -274,7 +511,8 @@ example : (starstarItems [] [] (.str "abc")).1 = [.str "abc"] := by
   have e : extendChildren [] [] (.str "abc") = [] := by decide
   unfold starstarItems
   simp only [e]
-  rw [ssLoop]; simp
+  unfold ssLoop
+  rw [ssLoopG]; simp
 
 -- `delete(t, '*.k', ignore_missing=True)` on `[{}, {'k': 1}, {'k': 2, 'a': 0}]`: the first entry lacks
 -- the key and is left alone, both later entries lose it (the hypothesis of `c14_ignore_skips_entry`
@@ -302,6 +540,117 @@ example : mutIs (modelMutate [] rgHeap [("x", .none)] (.str "k") (.delete "[" fa
 example : mutIs (modelMutate [] rgHeap [("x", .none)] (.str "k") (.assign "P" (.int 9) true) (.ref 0))
     [ .list "list" [.ref 1, .ref 2, .ref 3], .dict "dict" [(.str "k", .int 9)],
       .dict "dict" [(.str "k", .int 9)], .dict "dict" [(.str "k", .int 9), (.str "a", .int 0)] ] none = true := by
+  decide
+
+-- `glom([q, q], T.__star__().pop())` with `q = [1, 2, 3]`: `[3, 2]`, and `q` is left `[1]`
+private def qqHeap : Heap := [ .list "list" [.ref 1, .ref 1], .list "list" [.int 1, .int 2, .int 3] ]
+private def obsIs (o : ObsS) (r : Res) (h : Heap) : Bool :=
+  (match o.out with | .ok r' => Res.beq r'.erase r | _ => false) && o.heap == h
+example : heapWF [] qqHeap = true := by decide
+example : obsIs (modelReadS [] qqHeap [.star, .call "pop" []] (.ref 0))
+    (.list [.val (.int 3), .val (.int 2)])
+    [ .list "list" [.ref 1, .ref 1], .list "list" [.int 1] ] = true := by decide
+-- `'*.*'` on the same target: two inner lists, two different objects (identities 1 and 2)
+example : (modelReadS [] qqHeap [.star, .star] (.ref 0)).out.labelsOf = [0, 1, 2] := by decide
+-- an observation in which both positions hold ONE list object — what a cache keyed by `id(entry)`
+-- produces — does not pass the check, although it is `==` to the right value
+example : checkC14S [] qqHeap [.star, .star] (.ref 0)
+    { out := .ok (.list 0 [.list 1 [.val (.int 1), .val (.int 2), .val (.int 3)],
+                           .list 1 [.val (.int 1), .val (.int 2), .val (.int 3)]]),
+      heap := qqHeap, calls := [] } = false := by decide
+example : checkC14S [] qqHeap [.star, .star] (.ref 0)
+    { out := .ok (.list 0 [.list 1 [.val (.int 1), .val (.int 2), .val (.int 3)],
+                           .list 2 [.val (.int 1), .val (.int 2), .val (.int 3)]]),
+      heap := qqHeap, calls := [] } = true := by decide
+-- … nor does one in which `pop()` ran once for the two positions
+example : checkC14S [] qqHeap [.star, .call "pop" []] (.ref 0)
+    { out := .ok (.list 0 [.val (.int 3), .val (.int 3)]),
+      heap := [ .list "list" [.ref 1, .ref 1], .list "list" [.int 1, .int 2] ], calls := [] } = false := by
+  decide
+-- a shared iterator stepped once per position: `glom({'x': it, 'y': it}, Path(T.__star__(), T.__('next__')()))`
+private def itCls : Classes := [("It", ⟨["It", "object"], true, true, ""⟩)]
+private def itHeap : Heap :=
+  [ .dict "dict" [(.str "x", .ref 1), (.str "y", .ref 1)],
+    .inst "It" [("elems", .ref 2), ("pos", .int 0)], .tuple "tuple" [.str "a", .str "b", .str "c"] ]
+example : heapWF itCls itHeap = true ∧ classesWF itCls = true := by decide
+example : obsIs (modelReadS itCls itHeap [.star, .call "__next__" []] (.ref 0))
+    (.list [.val (.str "a"), .val (.str "b")])
+    [ .dict "dict" [(.str "x", .ref 1), (.str "y", .ref 1)],
+      .inst "It" [("elems", .ref 2), ("pos", .int 2)], .tuple "tuple" [.str "a", .str "b", .str "c"] ] = true ∧
+    (modelReadS itCls itHeap [.star, .call "__next__" []] (.ref 0)).calls = [(1, "__next__"), (1, "__next__")] := by
+  decide
+-- a call that raises ends the evaluation; what the earlier positions did stays done
+example : (modelReadS [] [ .list "list" [.ref 1, .ref 2, .ref 1], .list "list" [.int 1], .list "list" [] ]
+    [.star, .call "pop" []] (.ref 0)).heap =
+    [ .list "list" [.ref 1, .ref 2, .ref 1], .list "list" [], .list "list" [] ] := by decide
+-- the hypotheses of `c14_same_object_n_pops` are met by that target (n = 2, ys = [1], rs = [3, 2])
+example : starItems [] qqHeap (.ref 0) = List.replicate [Val.int 3, Val.int 2].length (.ref 1) ∧
+    qqHeap[1]? = some (.list "list" ([.int 1] ++ [Val.int 3, Val.int 2].reverse)) := by decide
+
+-- user-registered container types: `RevList` (iterate = reversed), `NoIterList` (iterate = False)
+private def userCls : Classes :=
+  [("RevList", ⟨["RevList", "list", "object"], true, true, "rev"⟩),
+   ("NoIterList", ⟨["NoIterList", "list", "object"], false, true, "off"⟩)]
+private def userHeap : Heap :=
+  [ .list "list" [.ref 1, .ref 2], .list "RevList" [.int 1, .int 2, .int 3], .list "NoIterList" [.int 5] ]
+example : heapWF userCls userHeap = true ∧ classesWF userCls = true := by decide
+example : starItems userCls userHeap (.ref 1) = [.int 3, .int 2, .int 1] ∧
+    starItems userCls userHeap (.ref 2) = [] := by decide
+example : descend userCls userHeap (.ref 0) = [.ref 0, .ref 1, .ref 2, .int 3, .int 2, .int 1] := by
+  rw [← c14_starstar_bfs userCls userHeap (by decide) (by decide)]
+  have e0 : extendChildren userCls userHeap (.ref 0) = [.ref 1, .ref 2] := by decide
+  have e1 : extendChildren userCls userHeap (.ref 1) = [.int 3, .int 2, .int 1] := by decide
+  have e2 : extendChildren userCls userHeap (.ref 2) = [] := by decide
+  have hl : userHeap.length = 3 := rfl
+  unfold starstarItems
+  simp only [e0]
+  unfold ssLoop
+  repeat (rw [ssLoopG]; simp [e1, e2, hl])
+-- Coalesce: the first path's prefix `zz` is missing, the second path's wildcard matches nothing and is
+-- taken all the same (value `[]`), the default is not consulted
+private def coIs (o : CoOut) (i : Nat) (r : Res) : Bool :=
+  match o with | .ok j r' => j == i && Res.beq r' r | _ => false
+example : coIs (coalesce exCls [.dict "dict" [(.str "e", .ref 1)], .list "list" []]
+    (.ref 0) true [[("P", .str "zz"), ("x", .none)], [("P", .str "e"), ("x", .none), ("P", .str "k")]] 0)
+    1 (.list []) = true := by decide
+example : (match coalesce exCls exHeap (.ref 0) true [[("P", .str "zz"), ("x", .none)]] 0 with
+    | .dflt => true | _ => false) = true := by decide
+example : (match coalesce exCls exHeap (.ref 0) false [[("P", .str "zz"), ("x", .none)]] 0 with
+    | .coalesceError => true | _ => false) = true := by decide
+-- the switch: `'a.*'` on `{'a': {'*': 7, 'k': 8}}` is `[7, 8]` with PATH_STAR on and `7` with it off
+private def starHeap : Heap := [ .dict "dict" [(.str "a", .ref 1)], .dict "dict" [(.str "*", .int 7), (.str "k", .int 8)] ]
+example : okIs (modelRead [] starHeap (stepsOfText true "a.*") (.ref 0)) (.list [.val (.int 7), .val (.int 8)]) = true := by
+  decide
+example : okIs (modelRead [] starHeap (stepsOfText false "a.*") (.ref 0)) (.val (.int 7)) = true := by decide
+example : stepsOfText false "a.*.**" = [("P", .str "a"), ("P", .str "*"), ("P", .str "**")] := by decide
+-- flattening: two wildcards, one `sum`; a second `sum` meets the entries
+example : (flattenN 1 [.list [.val (.int 1)], .list []]).map (·.length) = some 1 ∧
+    (flattenN 2 [.list [.val (.int 1)], .list []]).isNone = true := by decide
+-- a nested Path: Path(Path('a', T.__star__()), T.__starstar__()['k']) has two wildcards
+example : stars (PathPart.stepsList [.path [.seg (.str "a"), .t [("x", .none)]], .t [("X", .none), ("[", .str "k")]]) = 2 := by
+  decide
+
+-- hypotheses of `c14_coalesce` / `c14_default_iff_unreachable` are met by the examples above
+example : heapWF exCls [.dict "dict" [(.str "e", .ref 1)], .list "list" []] = true ∧
+    wfOps [("P", .str "zz"), ("x", .none)] = true ∧ wfOps [("P", .str "e"), ("x", .none), ("P", .str "k")] = true := by
+  decide
+/-- **Counter-example for the hypothesis `wfOps`** of `c14_fails_only_before_first_wildcard` (and of
+    `c14_tail_independent`): an op `_t_eval` does not know behind a wildcard is a BadSpec for every
+    entry — not a PathAccessError, so it is not swallowed: the path fails although the part in front of
+    its first wildcard (nothing) can be walked. -/
+example : wfOps [("x", .none), ("?", .none)] = false ∧
+    isOkE (evalSteps [] [.list "list" [.int 1]] [("x", .none), ("?", .none)] (.ref 0)) = false ∧
+    reachable [] [.list "list" [.int 1]] (.ref 0) [("x", .none), ("?", .none)] = true := by decide
+/-- **Counter-example for the hypothesis `hne`** of `c14_flatten_too_deep`: with no entry at all any
+    number of flattenings goes through (`sum([], [])` is `[]`). -/
+example : (flattenN 3 []).isSome = true := by decide
+/-- **Counter-example for the hypothesis** of `c14_path_star_irrelevant`: a `*` segment is read
+    differently under the two settings. -/
+example : stepsOfText true "a.*" ≠ stepsOfText false "a.*" := by decide
+/-- **Counter-example for the hypothesis `heapWF`** of `c14_stateful_refines` / `c14_model_checks_read`:
+    on the impossible dict cell with two equal keys the model's observation does not pass the check. -/
+example : checkC14S [] [.dict "dict" [(.str "a", .int 1), (.str "a", .int 2)]] [.star] (.ref 0)
+    (modelReadS [] [.dict "dict" [(.str "a", .int 1), (.str "a", .int 2)]] [.star] (.ref 0)) = false := by
   decide
 
 /-- **Counter-example for the hypothesis `heapWF`** (forced by `c14_star`): a "dict" cell with two
